@@ -225,7 +225,32 @@ class ExprMixin:
 
     def e_Tuple(self, e, st):
         if any(isinstance(x, ast.Starred) for x in e.elts):
-            return self.e_generic(e, st)
+            # (*a, x, *b)  ==  tuple(a) + (x,) + tuple(b): represented as the equivalent concatenation
+            out = []
+            for vals, s in self.eval_seq(e.elts, st):
+                if isinstance(vals, Raise):
+                    out.append((vals, s))
+                    continue
+                segs, cur = [], []
+                for v in vals:
+                    if v.k == 'star':
+                        inner = v.a[0]
+                        if inner.k == 'tuple':
+                            cur.extend(inner.a[0])
+                            continue
+                        if cur:
+                            segs.append(tup(cur))
+                            cur = []
+                        segs.append(inner)
+                    else:
+                        cur.append(v)
+                if cur:
+                    segs.append(tup(cur))
+                acc = segs[0] if segs else tup(())
+                for sg in segs[1:]:
+                    acc = V('term', 'Add', (acc, sg))
+                out.append((acc, s))
+            return out
         return [(vals if isinstance(vals, Raise) else tup(vals), s) for vals, s in self.eval_seq(e.elts, st)]
 
     def e_List(self, e, st):
@@ -250,6 +275,12 @@ class ExprMixin:
         return out
 
     def e_Dict(self, e, st):
+        if e.keys and all(k is None for k in e.keys):
+            # {**a, **b, ...}: a merge of mappings, later ones override
+            out = []
+            for vals, s in self.eval_seq(list(e.values), st):
+                out.append((vals if isinstance(vals, Raise) else V('merge', tuple(vals)), s))
+            return out
         if any(k is None for k in e.keys):
             return self.e_generic(e, st)
         out = []
